@@ -76,6 +76,9 @@ def step(spec, world, event):
         }
         if info['site'] == 'harness':
             raise
+        # scenario signature kept by the world (qualifies known findings so
+        # that they cannot mask another failure at the same site)
+        info['site'] += getattr(world, 'exception_site_suffix', '') or ''
         return False, info
 
 
